@@ -141,6 +141,56 @@ Proof.
 Qed.
 Print Assumptions C04_caller_exact_bytes_or_error_refuted.
 
+(* Reader-initiated messages and the REAL reply (round 6).  KeepAlive, ROAccessReport and
+   ReaderEventNotification ([reader_initiated]) are never the reply to anything; a configuration
+   that exempts them from the lookup in c.awaiting ([never_reply] true on them — the hypothesis
+   is stated for any set of exempt types) delivers such frames to their handler only and keeps
+   every awaiting entry: when a request with id (f_id f) is outstanding and the reader sends any
+   number of exempt-type frames ris — also ones that carry that very id — and then the real reply
+   f, none of ris is delivered to a caller and f is delivered to the caller: the buffered payload
+   byte for byte within the limit (header-only beyond it), and what the caller is handed is
+   exactly f's bytes under f's type or an error ([caller_exact]).  For every limit, handler
+   configuration, registration pattern, handler behaviour and continuation of the stream.
+   The check instantiates the model with never_reply = reader_initiated — taken from the
+   property, not probed from the tree. *)
+Theorem C04_real_reply_after_reader_initiated :
+  forall (maxbuf : N) (cfg : config) (ris : list frame) (f : frame) (st : state)
+         (env : nat -> env_step) (rest : list byte),
+  Forall frame_wf (ris ++ [f]) ->
+  Forall (fun r => never_reply cfg (f_typ r) = true) ris ->
+  never_reply cfg (f_typ f) = false ->
+  mem (f_id f) (s_aw st) = true ->
+  exists l d tail,
+    r_log (serve maxbuf cfg st env (concat (map frame_bytes (ris ++ [f])) ++ rest)) = l ++ d :: tail /\
+    length l = length ris /\
+    Forall (fun x => d_reply x = None) l /\
+    d_hdr d = frame_header f /\
+    d_reply d = Some (if len (f_payload f) <=? maxbuf then RBuffered (f_payload f) else RHeaderOnly) /\
+    caller_exact maxbuf true f d.
+Proof. exact real_reply_after_exempt_frames. Qed.
+Print Assumptions C04_real_reply_after_reader_initiated.
+
+(* FALSE for a configuration that does not exempt ROAccessReport: request 7 outstanding, a
+   report carrying id 7, then the real reply of type 12: the caller is handed the report and
+   the real reply reaches no caller; with the three reader-initiated types exempt the report
+   reaches no caller and the real reply does. *)
+Theorem C04_real_reply_after_reader_initiated_refuted :
+  exists maxbuf cfg_bad cfg_ok st env fs,
+  Forall frame_wf fs /\
+  (forall t, never_reply cfg_ok t = reader_initiated t) /\ never_reply cfg_bad 61 = false /\
+  map d_reply (r_log (serve maxbuf cfg_bad st env (concat (map frame_bytes fs))))
+  = [Some (RBuffered [9; 9]); None] /\
+  map d_reply (r_log (serve maxbuf cfg_ok st env (concat (map frame_bytes fs))))
+  = [None; Some (RBuffered [1; 2; 3])].
+Proof.
+  destruct wit_report_not_exempt_steals_reply as [Hwf [Hbad Hok]].
+  exists 100, (mkConfig (fun _ => false) true (fun t => (t =? 62) || (t =? 63))),
+         (mkConfig (fun _ => false) true reader_initiated), (mkState [7] false),
+         (fun _ : nat => mkEnv [] (HRead 0) false), [mkFrame 0 1 61 7 [9; 9]; mkFrame 0 1 12 7 [1; 2; 3]].
+  split; [exact Hwf|]. split; [intro t; reflexivity|]. split; [reflexivity|]. split; [exact Hbad|exact Hok].
+Qed.
+Print Assumptions C04_real_reply_after_reader_initiated_refuted.
+
 (* The byte-level loop refines the client LTS of Client/Model.v (the model behind C03, C05, C07,
    C08, C09): from an LTS state s whose reader is in readHeader and a byte-level state st that
    agree on the awaited ids and on receivedClosed ([Refine.rel]; [core_inv] is the LTS's proved
